@@ -1,12 +1,12 @@
 #!/bin/sh
 # Runs the thorough tier of every claimed property sequentially with a per-property time limit
-# (default 45 min); prints one line per property.  Development aid: evidence written by these
+# (default 45 min); prints one line per property.  PROPS="C05 C06" restricts the list.  Development aid: evidence written by these
 # runs is overwritten by the next quick run.
 limit=${1:-2700}
 cd /verif
-for p in $(python3 -c "
+for p in ${PROPS:-$(python3 -c "
 import json
-print(' '.join(c['property_id'] for c in json.load(open('/verif/MANIFEST.json'))['checks']))"); do
+print(' '.join(c['property_id'] for c in json.load(open('/verif/MANIFEST.json'))['checks']))")}; do
   start=$(date +%s)
   timeout $limit /verif/bin/vpcheck run --property $p --tier thorough > /verif/out/thorough_$p.log 2>&1
   code=$?
